@@ -82,6 +82,8 @@ class Session:
         class _Time:
             @staticmethod
             def sleep(s, _self=self):
+                if s < 0:
+                    raise ValueError("sleep length must be non-negative")      # as the real time.sleep
                 _self.sleeps.append(s)
         self._orig_time = ctrl_if.time
         ctrl_if.time = _Time
@@ -129,7 +131,8 @@ class Session:
     def config(self):
         out = []
         for t in self.trxs:
-            kids = [self.trxs.index(c) for c in t.child_trx_list.trx_list]
+            # a child object that is not one of this application's transceivers (leaked from elsewhere) is reported as -1
+            kids = [self.trxs.index(c) if c in self.trxs else -1 for c in t.child_trx_list.trx_list]
             out.append(dict(idx=t.child_idx, mgt=bool(t.child_mgt), clock=t.clck_gen is not None, pm=t.pwr_meas is not None, children=kids))
         return out
 
